@@ -122,7 +122,7 @@ def plan(ctx):
     comps = C.COMPS
     # (1) boundary matrix: directory sizes (256-entry headers, 8 KiB metadata blocks, 64 KiB listing -> extended inode + index)
     dsz = [0, 1, 2, 255, 256, 257, 258, 511, 512, 513]
-    for n in (rng.sample(dsz, 7) if q else dsz + [1024, 3000]):
+    for n in ([256, 257] + rng.sample([0, 1, 2, 255, 258, 511, 512, 513], 5) if q else dsz + [1024, 3000]):
         add(C.dir_case(rng, n, opts={"comp": rng.choice(comps), "bs": 4096, "e": rng.random() < 0.5}, ftype=rng.choice(["pipe", "file", "mix"])))
     edge = [(255, 24), (256, 24), (257, 24), (30, 250), (31, 255), (32, 256), (247, 256), (248, 256), (249, 256), (250, 256), (254, 256), (260, 256), (700, 100)]
     for n, nl in (rng.sample(edge, 6) if q else edge):
@@ -146,7 +146,7 @@ def plan(ctx):
     for n in ([1, 255, 256] if q else [1, 2, 255, 256, 257, 4096, 4097]):
         add(C.ids_case(rng, n, comp=rng.choice(comps), base=rng.choice([0, 0, 100000]), split_gid=rng.random() < 0.5))
     # (4) xattr sets around multiples of 512, shared long values, empty values, every prefix, binary
-    for n in ([0, 1, 511, 512, 513] if q else [0, 1, 2, 511, 512, 513, 1023, 1024, 1025, 2048]):
+    for n in ([0, 1, 511, 512, 513, 1025] if q else [0, 1, 2, 511, 512, 513, 1023, 1024, 1025, 2048]):
         add(C.xattrsets_case(rng, n, comp=rng.choice(comps), shared=(n != 512 or rng.random() < 0.5)))
     # (5) every inode type, names, hard links
     for comp in (rng.sample(comps, 2) if q else comps):
@@ -154,6 +154,7 @@ def plan(ctx):
     add(C.names_case(rng, "packfile", rng.choice(comps)))
     add(C.names_case(rng, "packdir", rng.choice(comps)))
     add(C.names_case(rng, "packdir-nl", rng.choice(comps)))
+    add(C.deep_case(rng, rng.choice(comps)))
     add(C.hardlink_case(rng, "packdir", rng.choice(comps)))
     add(C.hardlink_case(rng, "packdir", rng.choice(comps), nohl=True))
     add(C.hardlink_case(rng, "packfile", rng.choice(comps)))
@@ -224,6 +225,8 @@ def run_case(env, case, wd, paths="abcde", limits=None):
         pk = R.pack(env, case, wdb, timeout=R.TIMEOUT * (6 if case.get("kind") in ("refusal", "bigsparse", "bigdelta") else 1))
         res["rc"] = pk["rc"]
         res["cmd"] = R.show_cmd(pk["cmd"], wdb)
+        if case.get("opts", {}).get("sde") is not None:
+            res["cmd"] = "SOURCE_DATE_EPOCH='%s' %s" % (case["opts"]["sde"], res["cmd"])
         res["t_pack"] = round(pk["t"], 2)
         err = pk["stderr"]
         img = pk["img"]
@@ -365,6 +368,22 @@ def shrink(env, case, target, budget_s=60, max_eval=60):
                 return True
         return False
 
+    def consistent(c):
+        fs = c.get("fs")
+        if not fs:
+            return c
+        while True:
+            have = {n["p"] for n in fs}
+            dirs = {n["p"] for n in fs if n["t"] == "dir"} | {""}
+            keep = [n for n in fs if (n["p"] == "" or n["p"].rpartition("/")[0] in dirs) and (n["t"] != "link" or n["to"] in have)]
+            if len(keep) == len(fs):
+                break
+            fs = keep
+        c = dict(c); c["fs"] = fs
+        return c
+
+    plain_still = still
+    still = lambda c: plain_still(consistent(c))
     cur = copy.deepcopy(case)
     for field in ("lines", "fs", "xa"):
         items = cur.get(field) or []
@@ -405,6 +424,7 @@ def shrink(env, case, target, budget_s=60, max_eval=60):
         del trial["opts"][k]
         if still(trial):
             cur = trial
+    cur = consistent(cur)
     cur["shrunk_from"] = case.get("name")
     cur["shrink_evaluations"] = evals[0]
     return cur
@@ -474,7 +494,7 @@ def run(ctx):
     heavy = {"bigsparse": 0, "bigdelta": 0, "refusal": 1}
     todo.sort(key=lambda c: (heavy.get(c.get("kind"), 5) if c.get("name", "").startswith(("ids-65", "sparse", "inode-delta")) or c.get("kind") in ("bigsparse", "bigdelta") else 5, c["idx"]))
     results = []
-    nworkers = WORKERS_QUICK if ctx.quick() else WORKERS_THOROUGH
+    nworkers = int(os.environ.get("VERIF_JOBS", WORKERS_QUICK if ctx.quick() else WORKERS_THOROUGH))
     with cf.ThreadPoolExecutor(nworkers) as ex:
         futs = [ex.submit(run_case, env, c, ctx.scratch / ("case%d" % c["idx"])) for c in todo]
         for c, f in zip(todo, futs):
@@ -589,7 +609,7 @@ def summarize(ctx, env, results, skipped, caps, stats):
                 try:
                     small = shrink(env, case, (m[0], m[1]), budget_s=45 if ctx.quick() else 120)
                     sres = run_case(env, small, ctx.scratch / "shrunk_final")
-                    mm = [x for x in sres["mism"] if (x[0], x[1]) == (m[0], m[1])]
+                    mm = [x for x in sres["mism"] if (x[0], x[1]) == (m[0], m[1]) and known_key(small, sres.get("exp_nodes"), x) is None]
                     if mm:
                         m = mm[0]
                     else:
